@@ -126,9 +126,26 @@ def run(chk):
         for a_, b_ in ((b"foo (>= 1.0", b"bar (>= 2.0)"), (b"foo [amd64", b"bar [i386]"), (b"foo <cross", b"bar <nocheck>"), (b"${misc:Depends", b"${shlibs:Depends}"),
                        (b"foo (>= 1.0", b"bar [amd64] (<< 3)"), (b"x:any [!i386", b"y [!amd64]")):
             uc2.append(("dparse", [a_ + sep + b_]))
-    for c, r in zip(uc2, chk.run_impl(uc2)):
+    # ... and the same defect made from the valid fields of this run: one closing character deleted that has a separator
+    # somewhere behind it (')' ']' '}' anywhere, '>' only where it closes a profile group)
+    for t in valid_texts:
+        depth = 0
+        spots = []
+        for i, ch_ in enumerate(t):
+            if ch_ == 0x28:
+                depth += 1
+            elif ch_ == 0x29:
+                depth = max(0, depth - 1)
+            if (ch_ in b")]}" or (ch_ == 0x3e and depth == 0)) and (b"," in t[i:] or b"|" in t[i:]):
+                spots.append(i)
+        for i in rng.sample(spots, min(len(spots), 2)):
+            uc2.append(("dparse", [t[:i] + t[i + 1:]]))
+    uc2 = uc2[:chk.n(1500, 30000)]
+    ui2, um2 = chk.run_both(uc2)
+    chk.compare("unterminated-clause-before-a-separator", uc2, ui2, um2, spec=False)
+    for c, r in zip(uc2, ui2):
         if r != "err":
-            chk.violate({"kind": "property", "class": "clause-swallows-separator", "case": lib.show_case(c), "impl": r[:300],
+            chk.violate({"kind": "property", "case": lib.show_case(c), "impl": r[:300],
                          "explanation": "an unterminated paren, bracket, profile group or substvar swallowed the separator and was closed by a later clause's closing character"})
     chk.extra["malformed_classes"] = sorted(set(kinds))
     # single-edit corruptions of valid fields: model vs implementation (ok/err and structure)
